@@ -91,12 +91,14 @@ var trImports = map[string]string{
 	"golang.org/x/tools/go/packages": "verif/simpackages",
 	"time":                           "verif/simtime",
 	"math/rand":                      "verif/simrand",
+	"runtime":                        "verif/simruntime",
 }
 
 func trRewrites() []RewriteSpec {
 	opt := rewrite.Options{Imports: trImports, Yields: true, FuncEntryOnly: true, GoStmt: true, MapRange: true, Channels: true}
 	mainOpt := opt
 	mainOpt.WrapMain = true
+	mainOpt.FuncEntryOnly = false // cmd/goose is small: a yield before every statement
 	return []RewriteSpec{
 		{Dir: "", Opt: opt},
 		{Dir: "internal/coq", Opt: opt},
